@@ -15,7 +15,12 @@ package metajournal
 // edit visible in compact form / edit invisible in compact form / create group / rename group /
 // enable-disable group / create-or-edit the namespace / deliver one page of 1 event or everything
 // pending to the compact replica / the same to the agent replica / save + reload the compact or
-// the agent replica from a file that is intact, cut by one byte, cut in the middle or emptied.
+// the agent replica from a file that is intact, cut by one byte, cut in the middle, emptied, or
+// cut EXACTLY at any inner chunk boundary (the file ends after chunk k of n, 1 <= k < n: what a
+// crash in the middle of save() leaves of a growing file, one WriteAt per chunk). The last kind
+// is the only damage the chunk reader cannot see (a file that ends after a whole chunk is a
+// well-formed shorter file, ReadNext reports no error); only the header's "last event version"
+// tells the loader that events are missing.
 //
 // Oracle (c20Judge), evaluated for EVERY reached state on the instance that reached it, after all
 // pending deliveries were drained (source -> compact -> agent):
@@ -88,7 +93,11 @@ const (
 	c20CutOneByte
 	c20CutMiddle
 	c20CutEmpty
+	c20CutBoundary // + (k-1): the file ends exactly after chunk k (k events survive, no read error), 1 <= k < n
 )
+
+// at most this many entities exist, so a saved journal has at most this many chunks
+const c20MaxEntities = c20MaxMetrics + c20MaxGroups + 1
 
 type c20Op struct {
 	kind, a, b int
@@ -131,6 +140,9 @@ func c20BuildOps() []c20Op {
 	for t, tn := range []string{"compact", "agent"} {
 		for c, cn := range []string{"intact", "cut-one-byte", "cut-middle", "emptied"} {
 			ops = append(ops, c20Op{c20OpReload, t, c, "save-reload-" + tn + "(" + cn + ")", 0})
+		}
+		for k := 1; k < c20MaxEntities; k++ { // every inner chunk boundary
+			ops = append(ops, c20Op{c20OpReload, t, c20CutBoundary + k - 1, fmt.Sprintf("save-reload-%s(ends-after-chunk-%d)", tn, k), 0})
 		}
 	}
 	for i := range ops {
@@ -421,6 +433,7 @@ func c20Reload(j *JournalFast, cut int, realSave bool) (*JournalFast, *MetricsSt
 	}
 	file := saver.release()
 	switch cut {
+	case c20CutIntact:
 	case c20CutOneByte: // the last chunk is torn: the last event is lost
 		file = file[:len(file)-1]
 	case c20CutMiddle: // the file ends in the middle of the chunk of event number n/2: n/2 events survive
@@ -432,6 +445,12 @@ func c20Reload(j *JournalFast, cut int, realSave bool) (*JournalFast, *MetricsSt
 		file = file[:(start+chunkEnds[k])/2]
 	case c20CutEmpty:
 		file = file[:0]
+	default: // the file ends exactly at the inner chunk boundary number k
+		k := cut - c20CutBoundary + 1
+		if cut < c20CutBoundary || k >= len(chunkEnds) {
+			panic(fmt.Sprintf("harness: cut mode %d with %d chunks", cut, len(chunkEnds)))
+		}
+		file = file[:chunkEnds[k-1]]
 	}
 	ms := MakeMetricsStorage(nil)
 	j2 := c20LoadJournal(file, j.compact, []ApplyEvent{ms.ApplyEvent})
@@ -499,6 +518,12 @@ func (w *c20World) enabled(op c20Op) bool {
 			return n >= 2
 		case c20CutMiddle:
 			return n >= 3
+		default:
+			// Every inner boundary k < n. On code that loads correctly the result equals that of a
+			// cut inside chunk k+1 (same surviving prefix); it is enabled nevertheless, because
+			// whether the loader tells the two apart is exactly what is being explored: after a
+			// boundary cut the chunk reader reports no error.
+			return op.b-c20CutBoundary+1 < n
 		}
 	}
 	return true
@@ -1361,7 +1386,7 @@ func TestVerifC20(t *testing.T) {
 	rep.Bounds["namespaces"] = 1
 	rep.Bounds["metric_name_pool"] = c20MetricNames
 	rep.Bounds["group_name_pool"] = c20GroupNames
-	rep.Bounds["file_damage"] = []string{"intact", "cut by one byte", "cut in the middle", "emptied"}
+	rep.Bounds["file_damage"] = []string{"intact", "cut by one byte", "cut in the middle", "emptied", "ends exactly after chunk k, every 1 <= k < number of chunks (one chunk per event)"}
 	rep.Rule = "BFS over all histories of the operation alphabet up to the length bound on the real JournalFast/MetricsStorage chain source->compact->agent, " +
 		"states merged by canonical key; after every history all deliveries are drained and the oracle is evaluated. " +
 		"A transition is non-trivial when its operation conflicts with the state it is applied to: it takes a name that a replica still attributes to another entity, " +
